@@ -324,7 +324,14 @@ def array_norm(obj):
     """
     if isinstance(obj, Number):
         return abs(obj)
-    return np.linalg.norm(obj)
+    # The same holds entry by entry: arrays whose largest entry is that small or that
+    # large are rescaled (exactly, by a power of two) before squaring; all other arrays
+    # are computed as before
+    largest = float(np.max(np.abs(obj))) if np.size(obj) else 0.0
+    if largest == 0 or not np.isfinite(largest) or 1e-150 < largest < 1e150:
+        return np.linalg.norm(obj)
+    scale = 2.0**600 if largest <= 1e-150 else 2.0**-600
+    return np.linalg.norm(np.asarray(obj) * scale) / scale
 
 ARRAY_ONLY_FUNCTIONS = {
     'norm': array_norm,
